@@ -86,6 +86,8 @@ func runC01(t *testing.T, rep *mc.Reporter) {
 	plans := []plan{
 		{c01Alphabet, 2, quickCfgs, 1, 1},
 		{c01Reduced, 3, quickCfgs, 1, 1},
+		// idle gaps on both sides of a write: two ticks (e.g. keep-alive, write, keep-alive)
+		{[]string{"w1", "bc", "p"}, 2, quickCfgs, 2, 1},
 	}
 	if tier == "thorough" {
 		plans = []plan{
